@@ -4,6 +4,7 @@ import random
 import common
 import graphs
 import c05_readers
+import c05_keys
 from e2e import canon, concat_parts, try_, _short
 
 
@@ -121,7 +122,12 @@ def run(run):
                 "read_csv dtype / converters / na_values, from_map args) x datasets of 1..5 files with and without nulls and integers > 2**53 x queries x histories (fresh, computed before, one partition / head first, "
                 "parent or sibling collection from the same option objects computed, threads first): every partition under adversarial orders (each output's sub-graph first), reverse, LIFO, random, "
                 "compared dtype-exactly with the same query built from copies of the options and executed with private copies of every task input; compute() twice + threaded + vs a fresh collection; "
-                "the user's option objects fingerprinted before/after (harness/c05_readers.py)")
+                "the user's option objects fingerprinted before/after (harness/c05_readers.py); "
+                "hash partitioning by keys: shuffle (tasks / disk, max_branch, ignore_index), hash joins, groupby / drop_duplicates / unique / value_counts with split_out, set_index, sort_values "
+                "x keys spelled as labels / index / Series collection / DataFrame collection (1-2 columns, derived, the base of the frame, the frame itself) x key dtypes (ints, floats, strings, categoricals, nullable, "
+                "datetime64 / timedelta64 in ns/us/ms/s, tz-aware) x missing values x partitions in/out x lazy or persisted base x fusion: the query and another consumer of the keys / base partitions in ONE graph under "
+                "adversarial orders (either consumer first), reverse, random, with argument fingerprints, compared dtype-exactly with the execution on private task inputs; the query computed repeatedly and on threads; "
+                "the base / keys collections computed before and after; the user's frames fingerprinted (harness/c05_keys.py)")
     run.proofs("PropC05.v")
     quick = run.tier == "quick"
     K = 4 if quick else 12
@@ -184,3 +190,4 @@ def run(run):
             run.sample({"workload": tag[:200], "keys": info["nkeys"], "policies": policies})
     run.section("schedules", workloads=n, with_shared_keys=shared_graphs, orders_per_workload=4 + K)
     c05_readers.run_family(run, rt)
+    c05_keys.run_family(run, rt)
